@@ -97,6 +97,29 @@ CLAIMED = {
              "push of exactly the argument, 0/-EINVAL tied to the pop result on every path, stack cleared by reset_module on every stopping path.",
         tech="who-calls query + reaching definitions + guard tables + path enumeration",
         ref="DESIGN.md §4 C17"),
+    "C15": dict(
+        text="Static guard rules: a live name is replaced only after ALLOW_REPLACE and a successful deregistration (path enumeration of "
+             "m_mod_register), the modules map forbids updates, DENY_PUB/DENY_SUB tests dominate every effect of the five pub/sub entry points with "
+             "-EPERM, m_ctx() yields NULL while a DENY_CTX module's callback executes and every context entry point goes through it, the persist "
+             "test precedes every effect of mod_deregister, publish refuses the reserved prefix and the prefix constant covers every system topic "
+             "the library emits.",
+        tech="guard tables (must-facts with passed-edge semantics), path enumeration, constant/string checks over call sites",
+        ref="DESIGN.md §4 C15"),
+    "C18": dict(
+        text="Accounting discipline of the token bucket decided statically: each of the 17 rate-limited entry points tests tokens > 0 (-EAGAIN, no "
+             "effect), decrements once, and every other effect is behind the decrement; the 13 public source calls act only through them; the "
+             "counter is decremented only under tokens > 0, incremented only in push_evt for the bucket's own timer under tokens < burst, stored "
+             "only with burst/UINT64_MAX at the three documented sites; refill timer period/flags/user pointer agree with what push_evt recognises; "
+             "rate 0 and stop restore every field. The bound b + r*t over wall-clock time is not decided.",
+        tech="guard tables + must-pass (tag) dataflow + who-writes with constant evaluation",
+        ref="DESIGN.md §4 C18"),
+    "C19": dict(
+        text="Static rules: each system topic is emitted at exactly one site in the function that performs the corresponding transition; per-path "
+             "counts in start/stop/loop_start/loop_stop (exactly one emission on paths that store the new state, none on the -ENOENT/refusing arms), "
+             "after the store and the hook; argument dataflow (sender = the module whose state changed, NULL for context notifications), the "
+             "message template (system=true, data=NULL, flags=0), nobody rewrites the system flag, CTX_STOPPED emitted before the final flush.",
+        tech="who-calls with string constants + per-path pairing counts + initialiser dataflow",
+        ref="DESIGN.md §4 C19"),
 }
 
 NOT_APPLICABLE = {
